@@ -9,7 +9,7 @@ import itertools
 
 LEVEL = "exploration"
 RULE = (
-    "Identifiers: ALL strings up to length 3 over {a, SPACE, \", ', &, <, [, ], e-acute} (flag "
+    "Identifiers: ALL strings up to length 3 over {a, SPACE, \", ', &, <, [, ], e-acute, .} (flag "
     "identifiers_exhaustive) plus random ones to length 12 and XPath/XML-injection shapes, filtered by what "
     "each setter accepts (a refusing ValueError/TypeError = 'not accepted', counted). Carriers x lookups: table "
     "name (body.get_table(name=)), paragraph style (insert_style / get_style, automatic and common), bookmark, "
@@ -17,7 +17,9 @@ RULE = (
     "(get_draw_page), variable declaration, variable set, user field declaration, user defined field, note id "
     "(get_note), annotation name, link name, draw group name, text change id, manifest path (add_full_path / "
     "get_media_type / get_path_medias), get_between/get_references by name, named ranges by name and by the "
-    "name of their table (tables whose names contain one another; str and list filter; rename of the longest). "
+    "name of their table (tables whose names contain one another; str and list filter; rename of the longest); "
+    "the Document helpers taking 'name or index of the table' (get_table_style, set/get_table_displayed) with the "
+    "target as last table, also for names that look like numbers. "
     "Each found object is then given another identifier through its public setter (the former identifier must "
     "no longer match it, the new one must) and deleted (no longer found). One evaluation = one (carrier, "
     "identifier) case judged: lookup(id) returns the marked node whose identifier attribute equals id exactly; "
@@ -42,9 +44,10 @@ REACH = [
     ("odfdo.body", "Body.get_table", False),
 ]
 
-ALPHA = ["a", " ", '"', "'", "&", "<", "[", "]", "é"]
+ALPHA = ["a", " ", '"', "'", "&", "<", "[", "]", "é", "."]
 EXTRA = ["b", "1", ">", "/", ".", "=", "(", ")", "|", "*", "@", ":", "-", "_", "日", "\t"]
-INJECTIONS = ['a"]|//*[@x="', "a' or '1'='1", 'x" or "1"="1', "]]>", "&amp;", "&lt;b&gt;", "a\"'b", "'\"", "\"'\"", "a]", "[a", "a&b<c>d", "concat('a')", "a\nb"]
+NUMERIC_LOOKING = ["0", "1", "2", "3", "007", "2024", "1_0", "-1", "+1", "1e3", "\uff11\uff12", "\u0663", "0x1", "1.0", "True", "None", "true", "false"]
+INJECTIONS = NUMERIC_LOOKING + ['a"]|//*[@x="', "a' or '1'='1", 'x" or "1"="1', "]]>", "&amp;", "&lt;b&gt;", "a\"'b", "'\"", "\"'\"", "a]", "[a", "a&b<c>d", "concat('a')", "a\nb"]
 MARK = "{urn:vf}mark"
 
 
@@ -353,6 +356,56 @@ def run_named_ranges(res, ident):
     res.cls(("named-range", charclasses(ident), outcome), True)
 
 
+def run_table_helpers(res, ident):
+    """The Document helpers that take 'name or index of the table': a str is a name, whatever it looks like."""
+    from lxml.etree import XMLSyntaxError, XPathError
+
+    from odfdo import Document, Style, Table
+
+    case = {"carrier": "table-helpers", "ident": ident}
+    res.judge()
+    outcome = "ok"
+    try:
+        doc = Document("spreadsheet")
+        body = doc.body
+        body.clear()
+        try:
+            names = [d for d in near_misses(ident)[:3]] + [ident]  # the target is the LAST table: an index never reaches it by luck
+            tables = [Table(nm, 2, 2) for nm in names]
+        except (ValueError, TypeError):
+            res.count("not_accepted")
+            res.cls(("table-helpers", charclasses(ident), "refused"), True)
+            return
+        stored = [t.name for t in tables]
+        if len(set(stored)) != len(stored):
+            res.cls(("table-helpers", charclasses(ident), "names-collide"), True)
+            return
+        for i, t in enumerate(tables):
+            sname = f"vf_ta_{i}"
+            doc.insert_style(Style("table", name=sname, display=True), automatic=True)
+            t.style = sname
+            body.append(t)
+        want = f"vf_ta_{len(tables) - 1}"
+        target_name = stored[-1]
+        st = doc.get_table_style(target_name)
+        if st is None or st.name != want:
+            outcome = "wrong-table"
+            res.violation("lookup:table-helpers:get_table_style-reads-another-table", {"table": target_name, "tables": stored, "got": None if st is None else st.name, "expected": want}, case)
+        doc.set_table_displayed(target_name, False)
+        shown = {t.name: doc.get_table_displayed(t.name) for t in body.get_tables()}
+        exp = {nm: (nm != target_name) for nm in stored}
+        if shown != exp:
+            outcome = "wrong-table"
+            res.violation("lookup:table-helpers:set_table_displayed-changed-another-table", {"table": target_name, "tables": stored, "displayed": shown, "expected": exp}, case)
+    except (XMLSyntaxError, XPathError) as e:
+        outcome = "query-error"
+        res.violation(f"lookup:table-helpers:internal-error:{type(e).__name__}", {"ident": ident, "exc": repr(e)[:200]}, case)
+    except Exception as e:
+        outcome = "raised"
+        res.violation(f"lookup:table-helpers:raised:{type(e).__name__}", {"ident": ident, "exc": repr(e)[:300]}, case)
+    res.cls(("table-helpers", charclasses(ident), "numeric-looking" if ident.strip().lstrip("+-").replace("_", "").isdigit() else "", outcome), True)
+
+
 def run_manifest(res, ident):
     from lxml.etree import XMLSyntaxError, XPathError
 
@@ -477,7 +530,8 @@ def run(ctx, res):
             run_manifest(res, ident)
             run_between(res, ident)
             run_named_ranges(res, ident)
-    res.info["identifiers_exhaustive"] = "all strings up to length 3 over the 9-letter alphabet on every carrier"
+            run_table_helpers(res, ident)
+    res.info["identifiers_exhaustive"] = "all strings up to length 3 over the 10-letter alphabet on every carrier"
     res.sample({"carrier": "bookmark", "ident": 'a"]|//*[@x="', "decoys": near_misses('a"]|//*[@x="')})
     res.sample({"carrier": "table", "ident": "é '"})
 
@@ -492,6 +546,8 @@ def replay(case):
         run_between(res, case["ident"])
     elif case["carrier"] == "named-range":
         run_named_ranges(res, case["ident"])
+    elif case["carrier"] == "table-helpers":
+        run_table_helpers(res, case["ident"])
     else:
         run_carrier(res, case["carrier"], carriers()[case["carrier"]], case["ident"])
     return res.violations
